@@ -14,30 +14,38 @@ def sh(cmd):
     return subprocess.run(cmd, capture_output=True, text=True)
 
 
+WT = '/tmp/verif_matrix_wt'   # private worktree of /repo HEAD: the regression does not block /repo (the first confirmation of a seed is done on /repo itself by tools_seedtest.py)
+
+
 def main():
     ap = argparse.ArgumentParser()
     ap.add_argument('--only')
+    ap.add_argument('--own-only', action='store_true')
     a = ap.parse_args()
-    if sh(['git', '-C', '/repo', 'status', '--porcelain', '--untracked-files=no']).stdout.strip():
-        print('refusing: /repo dirty')
+    sh(['git', '-C', '/repo', 'worktree', 'remove', '--force', WT])
+    if sh(['git', '-C', '/repo', 'worktree', 'add', '--detach', WT, 'HEAD']).returncode != 0:
+        print('cannot create worktree')
         return 2
+    os.environ['VERIF_REPO'] = WT
+    os.environ['VERIF_EVIDENCE_DIR'] = '/tmp/verif_matrix_evidence'
+    os.environ['VERIF_REPLAY_DIR'] = '/tmp/verif_matrix_replays'
     out = {}
     for d in sorted(glob.glob(os.path.join(V, 'seeded', '*'))):
         sid = os.path.basename(d)
         if a.only and sid not in a.only.split(','):
             continue
         p = sid.split('-')[0]
-        if sh(['git', '-C', '/repo', 'apply', os.path.join(d, 'patch.diff')]).returncode != 0:
+        if sh(['git', '-C', WT, 'apply', os.path.join(d, 'patch.diff')]).returncode != 0:
             out[sid] = 'patch does not apply'
             continue
         res = {}
         try:
-            for q in [p] + REL.get(p, []):
+            for q in [p] + ([] if a.own_only else REL.get(p, [])):
                 c = sh(['python3', os.path.join(V, 'vcheck.py'), q, '--tier', 'quick'])
                 keys = re.findall(r'^  key=(.*?) count=', c.stdout, re.M)
                 res[q] = {'exit': c.returncode, 'classes': len(keys), 'first': keys[:2]}
         finally:
-            sh(['git', '-C', '/repo', 'checkout', '--', '.'])
+            sh(['git', '-C', WT, 'checkout', '--', '.'])
         out[sid] = res
         m = json.load(open(os.path.join(d, 'meta.json')))
         m['regression_quick'] = {'own_property': res[p]['exit'], 'own_property_classes': res[p]['classes']}
@@ -45,7 +53,7 @@ def main():
         m['related_checks_silent'] = [q for q in res if q != p and res[q]['exit'] == 0]
         json.dump(m, open(os.path.join(d, 'meta.json'), 'w'), indent=1)
         print(sid, {q: (v['exit'], v['classes']) for q, v in res.items()}, flush=True)
-    sh(['git', '-C', V, 'checkout', '--', 'evidence'])
+    sh(['git', '-C', '/repo', 'worktree', 'remove', '--force', WT])
     prev = {}
     mp = os.path.join(V, 'notes', 'seed_matrix.json')
     if os.path.exists(mp):
